@@ -22,6 +22,15 @@ func init() {
 		{ID: "E8.discovery.server", Fn: "op.createDiscoveryConfigV2", P: []string{"ctx", "c", "storage", "e"}, Kind: "ret any", Max: 1,
 			Pat: "ret(&DiscoveryConfiguration{" + common + ", " + ep2 + "})",
 			Req: []string{"def($iss, op.IssuerFromContext($ctx))"}},
+		// the document is built for the request at hand: its issuer comes from this request's context (a provider may serve
+		// several issuers), so it is neither cached across requests nor built from another context
+		{ID: "E8.discovery.provider.per-request", Fn: "op.discoveryHandler$1", Kind: "call", Pat: "op.Discover($w, op.CreateDiscoveryConfig($r.Context(), $c, $s))", Min: 1, Max: 1,
+			Why: "the served document is the one built from this request's context"},
+		{ID: "E8.discovery.provider.per-request.only", Fn: "op.discoveryHandler$1", Kind: "call", Pat: "op.Discover(__)", Max: 1},
+		{ID: "E8.discovery.server.per-request", Fn: "op.(*LegacyServer).Discovery", P: []string{"s", "ctx", "r"}, Kind: "ret ok", Pat: "ret(op.NewResponse(op.createDiscoveryConfigV2(_, $s.provider, $s.provider.Storage(), &$s.endpoints)), nil)", Min: 1, Max: 1,
+			Why: "sibling of discoveryHandler"},
+		{ID: "E8.discovery.server.per-request.only", Fn: "op.(*LegacyServer).Discovery", Kind: "ret ok", Max: 1},
+		{ID: "E8.discovery.server.handler", Fn: "op.simpleHandler$1", Kind: "call", Pat: "$method($r.Context(), op.newRequest($r, _))", Min: 1, Max: 1},
 		{ID: "E8.discovery.server.endpoints", Fn: "op.(*LegacyServer).Discovery", P: []string{"s", "ctx"}, Kind: "call", Pat: "op.createDiscoveryConfigV2(_, $s.provider, _, &$s.endpoints)", Max: 1},
 		{ID: "E8.discovery.server.same-endpoints-routed", Fn: "op.RegisterLegacyServer", P: []string{"s"}, Kind: "ret any", Pat: "ret(op.RegisterServer($s, $s.Endpoints(), __))", Max: 1, Only: true},
 		{ID: "E8.discovery.server.endpoints-getter", Fn: "op.(*LegacyServer).Endpoints", P: []string{"s"}, Kind: "ret any", Pat: "ret($s.endpoints)", Max: 1, Only: true},
@@ -118,6 +127,11 @@ func init() {
 		{ID: "E1.issuer.static", Fn: "op.StaticIssuer$1", P: []string{"allowInsecure"}, Kind: "ret ok", Max: 1, Req: []string{"ok(op.ValidateIssuer($issuer, $allowInsecure))"}},
 		{ID: "E1.issuer.dynamic", Fn: "op.issuerFromForwardedOrHost$1", P: []string{"allowInsecure"}, Kind: "ret ok", Max: 1, Req: []string{"def($p, url.Parse($path), 0)", "ok(url.Parse($path))", "ok(op.ValidateIssuerPath($p))"}},
 		{ID: "E1.issuer.provider-construction", Fn: "op.NewProvider", P: []string{"config", "storage", "issuer"}, Kind: "ret ok", Max: 1, Req: []string{"ok($issuer($o.insecure))"}},
+		{ID: "E8.discover.rp-asks-for-own-issuer", Fn: "client/rp.NewRelyingPartyOIDC", P: []string{"ctx", "issuer"}, Kind: "call", Pat: "client.Discover(_, $rp.issuer, $rp.httpClient, $rp.DiscoveryEndpoint)", Min: 1, Max: 1,
+			Why: "the issuer the discovery document is compared with is the one the relying party was created for",
+			Req: []string{"def($rp, &relyingParty{issuer: $issuer})"}},
+		{ID: "E8.discover.rs-asks-for-own-issuer", Fn: "client/rs.newResourceServer", P: []string{"ctx", "issuer"}, Kind: "call", Pat: "client.Discover(_, $rs.issuer, $rs.httpClient)", Min: 1, Max: 1,
+			Req: []string{"def($rs, &resourceServer{issuer: $issuer})"}},
 		{ID: "E1.discover.issuer-equal", Fn: "client.Discover", P: []string{"ctx", "issuer", "httpClient"}, Kind: "ret ok", Max: 1,
 			Req: []string{"ok(httphelper.HttpRequest($httpClient, _, &$r0))", "eq($r0.Issuer, $issuer)"}},
 	}
